@@ -95,9 +95,10 @@ structure InvL (env : Env) (s : State) : Prop where
   locks : Locks.Inv s.locks
   grant : ∀ r i g, (s.pc r i).holds = some g → (⟨g, (env.upd i).name, r⟩ : Locks.Grant) ∈ s.locks.active
   uniq : ∀ r i r' i' g, (s.pc r i).holds = some g → (s.pc r' i').holds = some g → r = r' ∧ i = i'
+  owner : ∀ gr ∈ s.locks.active, ∃ r i, (s.pc r i).holds = some gr.gid ∧ gr.key = (env.upd i).name ∧ gr.parent = r
 
 theorem invL_init (env : Env) (hist : List Op) : InvL env (init hist) := by
-  refine ⟨Locks.inv_init, ?_, ?_⟩ <;> intros <;> simp_all [init, Pc.holds]
+  refine ⟨Locks.inv_init, ?_, ?_, ?_⟩ <;> intros <;> simp_all [init, Pc.holds, Locks.init]
 
 /-- Mutual exclusion between workers, from the lock machine's invariant. -/
 theorem exclusive {env : Env} {s : State} (h : InvL env s) {r i r' i' g g' : Nat}
@@ -121,19 +122,38 @@ theorem invL_progress {env : Env} {s s' : State} (h : InvL env s) (r i : Nat) (p
     split
     · rename_i h'; rw [hh, h'.1, h'.2]
     · rfl
-  refine ⟨by rw [hl]; exact h.locks, ?_, ?_⟩
+  refine ⟨by rw [hl]; exact h.locks, ?_, ?_, ?_⟩
   · intro r' i' g hg
     rw [hl]; rw [key] at hg; exact h.grant r' i' g hg
   · intro r1 i1 r2 i2 g h1 h2
     rw [key] at h1 h2; exact h.uniq r1 i1 r2 i2 g h1 h2
+  · intro gr hgr
+    rw [hl] at hgr
+    obtain ⟨r', i', h1, h2, h3⟩ := h.owner gr hgr
+    exact ⟨r', i', by rw [key]; exact h1, h2, h3⟩
 
 /-- A worker that holds nothing takes a fresh grant. -/
 theorem invL_acquire {env : Env} {s s' : State} (h : InvL env s) (r i : Nat) (p : Pc)
-    (hfree : (env.upd i).name ∉ s.locks.held)
+    (hfree : (env.upd i).name ∉ s.locks.held) (hnone : (s.pc r i).holds = none)
     (hl : s'.locks = (Locks.acquire s.locks (env.upd i).name r).1)
     (hpc : s'.pc = (s.setPc r i p).pc) (hh : p.holds = some s.locks.issued) :
     InvL env s' := by
-  refine ⟨by rw [hl]; exact acquire_inv h.locks _ _ hfree, ?_, ?_⟩
+  refine ⟨by rw [hl]; exact acquire_inv h.locks _ _ hfree, ?_, ?_, ?owner⟩
+  case owner =>
+    intro gr hgr
+    rw [hl, acquire_active] at hgr
+    rcases List.mem_cons.1 hgr with he | hm
+    · refine ⟨r, i, ?_, ?_, ?_⟩
+      · rw [hpc, setPc_pc_self, hh, he]
+      · rw [he]
+      · rw [he]
+    · obtain ⟨r', i', h1, h2, h3⟩ := h.owner gr hm
+      refine ⟨r', i', ?_, h2, h3⟩
+      rw [hpc, setPc_pc_ne]
+      · exact h1
+      · intro hh'
+        rw [hh'.1, hh'.2, hnone] at h1
+        cases h1
   · intro r' i' g hg
     rw [hl, acquire_active]
     rw [hpc, setPc_pc] at hg
@@ -174,7 +194,32 @@ theorem invL_finish {env : Env} {s s' : State} (h : InvL env s) (r i : Nat) (p :
     rw [hl]; cases go with
     | none => exact h.locks
     | some g => exact Locks.inv_step h.locks _
-  refine ⟨hinv, ?_, ?_⟩
+  refine ⟨hinv, ?_, ?_, ?owner⟩
+  case owner =>
+    intro gr hgr
+    have hold : gr ∈ s.locks.active ∧ (∀ g, go = some g → gr.gid ≠ g) := by
+      rw [hl] at hgr
+      cases go with
+      | none => exact ⟨hgr, by intro g hg; cases hg⟩
+      | some g =>
+        have m := h.grant r i g hheld
+        simp only [relLocks] at hgr
+        have := release_active h.locks m
+        simp only at this
+        rw [this] at hgr
+        have hf := List.mem_filter.1 hgr
+        refine ⟨hf.1, ?_⟩
+        intro g' hg'; cases hg'
+        simpa using hf.2
+    obtain ⟨r', i', h1, h2, h3⟩ := h.owner gr hold.1
+    refine ⟨r', i', ?_, h2, h3⟩
+    rw [hpc, setPc_pc_ne]
+    · exact h1
+    · intro hh'
+      rw [hh'.1, hh'.2, hheld] at h1
+      cases go with
+      | none => cases h1
+      | some g => cases h1; exact hold.2 _ rfl rfl
   · intro r' i' g' hg'
     rw [hpc, setPc_pc] at hg'
     split at hg'
@@ -200,9 +245,10 @@ theorem invL_finish {env : Env} {s s' : State} (h : InvL env s) (r i : Nat) (p :
 
 theorem invL_congr {env : Env} {s s' : State} (h : InvL env s) (hl : s'.locks = s.locks) (hpc : s'.pc = s.pc) :
     InvL env s' := by
-  refine ⟨by rw [hl]; exact h.locks, ?_, ?_⟩
+  refine ⟨by rw [hl]; exact h.locks, ?_, ?_, ?_⟩
   · intro r i g hg; rw [hl]; rw [hpc] at hg; exact h.grant r i g hg
   · intro r1 i1 r2 i2 g h1 h2; rw [hpc] at h1 h2; exact h.uniq r1 i1 r2 i2 g h1 h2
+  · intro gr hgr; rw [hl] at hgr; rw [hpc]; exact h.owner gr hgr
 
 theorem finish_locks (s : State) (r i : Nat) (go : Option Nat) (res : Option Res) :
     (finish s r i go res).locks = relLocks s.locks go := by
@@ -235,9 +281,10 @@ theorem invL_step {env : Env} {s : State} (h : InvL env s) (ev : Ev) : InvL env 
   | ret r => simp only [step]; split <;> first | exact h | exact invL_congr h rfl rfl
   | cancel r =>
     simp only [step]
-    refine ⟨Locks.inv_step h.locks _, ?_, ?_⟩
+    refine ⟨Locks.inv_step h.locks _, ?_, ?_, ?_⟩
     · intro r' i' g hg; exact h.grant r' i' g hg
     · intro r1 i1 r2 i2 g h1 h2; exact h.uniq r1 i1 r2 i2 g h1 h2
+    · intro gr hgr; exact h.owner gr hgr
   | tryLock r i =>
     simp only [step]; split
     · rename_i hpc
@@ -246,8 +293,8 @@ theorem invL_step {env : Env} {s : State} (h : InvL env s) (ev : Ev) : InvL env 
         · exact invL_progress h r i (.skipped none) rfl rfl (by simp [hpc, Pc.holds])
         · rename_i hfree
           split
-          · exact invL_acquire h r i _ hfree rfl rfl rfl
-          · exact invL_acquire h r i _ hfree rfl rfl rfl
+          · exact invL_acquire h r i _ hfree (by simp [hpc, Pc.holds]) rfl rfl rfl
+          · exact invL_acquire h r i _ hfree (by simp [hpc, Pc.holds]) rfl rfl rfl
       · exact h
     · exact h
   | getOps r i =>
